@@ -62,10 +62,12 @@ def step (quirkV0 : Bool) (toks : List String) (impl : String) : Res :=
     -- stay in flight), `c:` the transfer ends at once (its own accepted keys are cleared, nothing else)
     let ops := (kv toks "ops").splitOn ";"
     let r := ops.foldl (fun (acc : Ofl.St × List String × Nat) op =>
+      -- `p:` / `c:` version 1, `P:` pending version 0 (bit list: accepted / declined)
       let keys := ((op.drop 2).toString.splitOn ".").filterMap String.toNat?
-      let st := Ofl.step acc.1 (.offer keys)
+      let v := if op.startsWith "P:" then 0 else 1
+      let st := Ofl.stepM acc.1 (.offer v keys)
       let out := ",".intercalate (st.2.map Verdict.name)
-      let s' := if op.startsWith "c:" then (Ofl.step st.1 (.finish acc.2.2)).1 else st.1
+      let s' := if op.startsWith "c:" then (Ofl.stepM st.1 (.finish acc.2.2)).1 else st.1
       (s', acc.2.1 ++ [out], acc.2.2 + 1)) (({} : Ofl.St), [], 0)
     let m := "/".intercalate r.2.1
     let nC := (ops.filter (·.startsWith "c:")).length
